@@ -402,7 +402,7 @@ func c20Run(c *core.Ctx) {
 	b.stepBudget = 1e8
 	if c.Thorough() {
 		variants, depth, bound = 125, 3, 2
-		b.stepBudget = 2e9
+		b.stepBudget = 5e8
 	}
 	// (1) purity
 	b.runShards(r, 16, func(s int) []string { return []string{"purity", strconv.Itoa(s), "16", strconv.Itoa(variants)} })
